@@ -190,36 +190,54 @@ func zzSep(space int) string {
 	return " "
 }
 
-func zzRunTmpl(t *zzTmpl, uplink bool) {
-	sep := zzSep(t.space)
-	s := ""
-	if t.space == 2 {
-		s = "  "
+// zzTmplTokens builds the tokens of the rule the template denotes (digits symbolic); opt marks the
+// tokens the grammar allows to be absent (the two port lists).
+func zzTmplTokens(t *zzTmpl) (toks []string, opt []bool, proto zzNum) {
+	add := func(s string, o bool) {
+		toks = append(toks, s)
+		opt = append(opt, o)
 	}
-	s += "permit" + sep
+	add("permit", false)
 	if t.dir == 0 {
-		s += "in"
+		add("in", false)
 	} else {
-		s += "out"
+		add("out", false)
 	}
-	s += sep
-	var proto zzNum
 	if t.proto == 0 {
-		s += "ip"
+		add("ip", false)
 	} else {
 		proto = zzDigits("proto", t.proto)
-		s += proto.str()
+		add(proto.str(), false)
 	}
-	s += sep + "from" + sep + t.src.build("src")
+	add("from", false)
+	add(t.src.build("src"), false)
 	if len(t.sports) > 0 {
-		s += sep + zzPorts("src", t.sports)
+		add(zzPorts("src", t.sports), true)
 	}
-	s += sep + "to" + sep + t.dst.build("dst")
+	add("to", false)
+	add(t.dst.build("dst"), false)
 	if len(t.dports) > 0 {
-		s += sep + zzPorts("dst", t.dports)
+		add(zzPorts("dst", t.dports), true)
 	}
+	return
+}
+
+func zzJoin(toks []string, sep string) string {
+	s := ""
+	for i, x := range toks {
+		if i > 0 {
+			s += sep
+		}
+		s += x
+	}
+	return s
+}
+
+func zzRunTmpl(t *zzTmpl, uplink bool) {
+	toks, _, proto := zzTmplTokens(t)
+	s := zzJoin(toks, zzSep(t.space))
 	if t.space == 2 {
-		s += " \t"
+		s = "  " + s + " \t"
 	}
 	zzObserve("rule", s)
 	g := zzGtp5g(7)
@@ -249,6 +267,13 @@ func zzRunTmpl(t *zzTmpl, uplink bool) {
 	attrs.Encode(b)
 	zzObserve("attrs", b)
 	zzWalk("PDR", "5/3/1/", b, "fd")
+	zzCheckFlowDesc(t, proto, b, uplink)
+	zzCover("C16.translated")
+}
+
+// zzCheckFlowDesc: the encoded FLOW_DESCRIPTION attributes b denote the rule of template t, source
+// and destination exchanged for an uplink PDR.
+func zzCheckFlowDesc(t *zzTmpl, proto zzNum, b []byte, uplink bool) {
 	fd, derr := gtp5gnl.DecodeFlowDesc(b)
 	zzAssert("C16.decodes", derr == nil)
 	if derr != nil {
@@ -275,7 +300,6 @@ func zzRunTmpl(t *zzTmpl, uplink bool) {
 	zzCheckNet(fd.Dst.IP, fd.Dst.Mask, dst, "C16.dst")
 	zzCheckPorts(fd.SrcPorts, sp, "C16.sports")
 	zzCheckPorts(fd.DstPorts, dp, "C16.dports")
-	zzCover("C16.translated")
 }
 
 func zzHost(a, b, c, d int) zzAddrT { return zzAddrT{kind: 2, digits: [4]int{a, b, c, d}} }
